@@ -80,7 +80,7 @@ Definition fl_of_bits (b : N) : fl :=
 Definition all_ascii (l : list N) : bool := forallb (fun c => c <? 128) l.
 Definition nonempty (l : list N) : bool := match l with [] => false | _ => true end.
 
-(* UTF-8; [sp] = the surrogatepass error handler (BINUNICODE family), strict otherwise (GLOBAL / INST) *)
+(* UTF-8; [sp] = the surrogatepass error handler (BINUNICODE family), strict otherwise (GLOBAL; the INST lines are ASCII-strict: [c_iname]) *)
 Definition cont (b : N) : bool := (128 <=? b) && (b <? 192).
 Fixpoint utf8_dec (sp : bool) (l : list N) {struct l} : option (list N) :=
   match l with
@@ -199,7 +199,8 @@ Record dialect := mkDialect {
   dl_long : list N -> option Z;            (* LONG *)
   dl_idx : list N -> option Z;             (* GET / PUT *)
   dl_float : list N -> option fl;          (* FLOAT *)
-  dl_name : list N -> option pystr;        (* each of the two lines of GLOBAL / INST *)
+  dl_name : list N -> option pystr;        (* each of the two lines of GLOBAL *)
+  dl_iname : list N -> option pystr;       (* each of the two lines of INST *)
   dl_pid : list N -> option pystr;         (* PERSID *)
   dl_utext : list N -> option pystr;       (* UNICODE *)
   dl_string : list N -> option pystr;      (* STRING, quotes included *)
@@ -225,6 +226,10 @@ Definition c_long (t : textw) (l : list N) : option Z :=
 Definition c_idx (t : textw) (l : list N) : option Z :=
   if nonempty l && forallb is_digit l then Some (Z.of_N (dval 0 l)) else tx_idx t l.
 Definition c_name (l : list N) : option pystr := utf8_dec false l.
+(* load_inst: PyUnicode_DecodeASCII(.., "strict") on both lines ("the INST opcode is only supported by older
+   protocols on Python 2.x"), unlike load_global's PyUnicode_DecodeUTF8: a byte >= 128 in the module or the
+   class line is UnicodeDecodeError BEFORE find_class is called (pickle.py: .decode("ascii") likewise) *)
+Definition c_iname (l : list N) : option pystr := if all_ascii l then Some l else None.
 Definition c_pid (l : list N) : option pystr := if all_ascii l then Some l else None.
 Definition plain_ascii (l : list N) : bool := forallb (fun c => (c <? 128) && negb (c =? 92)) l.
 Definition c_string (t : textw) (l : list N) : option pystr :=
@@ -244,7 +249,7 @@ Definition c_binstr (l : list N) : option pystr := if all_ascii l then Some l el
 
 (* Modules/_pickle.c *)
 Definition c_dialect (t : textw) : dialect :=
-  mkDialect true true (c_int t) (c_long t) (c_idx t) (tx_float t) c_name c_pid rue_dec (c_string t) c_binstr.
+  mkDialect true true (c_int t) (c_long t) (c_idx t) (tx_float t) c_name c_iname c_pid rue_dec (c_string t) c_binstr.
 
 (** * The reader *)
 
@@ -467,14 +472,16 @@ Definition build_op (d : dialect) (b : N) (a : raw) : option op :=
       | _ => None
       end
   | RLine2 l1 l2 =>
-      match dl_name d l1, dl_name d l2 with
-      | Some m, Some n =>
-          match b with
-          | 99 => Some (GLOBAL m n)
-          | 105 => Some (INST m n)
-          | _ => None
-          end
-      | _, _ => None
+      match b with
+      | 99 => match dl_name d l1, dl_name d l2 with
+              | Some m, Some n => Some (GLOBAL m n)
+              | _, _ => None
+              end
+      | 105 => match dl_iname d l1, dl_iname d l2 with
+               | Some m, Some n => Some (INST m n)
+               | _, _ => None
+               end
+      | _ => None
       end
   | RNum n =>
       match b with
@@ -691,7 +698,8 @@ Definition enc_ok (o : op) : bool :=
   | BINBYTES s => lenlt s (2 ^ 32)
   | SHORT_BINBYTES s => lenlt s 256
   | BINBYTES8 s | BYTEARRAY8 s => lenlt s (2 ^ 63)
-  | GLOBAL m n | INST m n => name_ok m && name_ok n
+  | GLOBAL m n => name_ok m && name_ok n
+  | INST m n => (name_ok m && all_ascii m) && (name_ok n && all_ascii n)     (* ASCII lines only: [c_iname] *)
   | PERSID s => all_ascii s && no_nl s
   | EXT1 c => zin 0 256 c
   | EXT2 c => zin 0 65536 c
